@@ -80,7 +80,7 @@ def pipeErrTrace : PipeErr → String
 
 def tokTypeDisplay (t : FTok) : String :=
   match t.kind with
-  | .label => s!"LABEL({t.payload})\n"
+  | .label => s!"LABEL({t.payload})"
   | .symbol => s!"SYMBOL({t.payload})"
   | .directive => s!"DIRECTIVE({t.payload})"
   | .string => s!"STRING({t.payload})"
